@@ -195,6 +195,7 @@ func runC10(c *Ctx) []Obligation {
 		c.twins(P, "cache.iterator.twins", "("+hcPkg+".MemoryCache).Iterator", "("+hcPkg+".MemoryCache).ReverseIterator", []Rename{{From: "orderedKeys, true)", To: "orderedKeys, false)"}},
 			"the cache's reverse iterator is its forward iterator with the direction flag flipped"),
 	)
+	out = append(out, c.cachePresenceByNilness(P))
 	return out
 }
 
@@ -661,4 +662,80 @@ func (c *Ctx) c10BoundSplit(P string) []Obligation {
 		out = append(out, *o)
 	}
 	return out
+}
+
+// cachePresenceByNilness: the cache tells "no entry" from "entry with an empty value" by nil-ness (the store
+// holds zero-length values on purpose: per-chain index markers, parameter flags). Nothing that reads the
+// cache may decide presence by the length of what Get returned.
+func (c *Ctx) cachePresenceByNilness(P string) Obligation {
+	o := c.obl(P, "cache.presence-by-nilness", "store/rootmulti/heightcache+store/iavl", "no value fetched from the height cache has its length tested: an entry with an empty value is an entry")
+	n := 0
+	for fn := range c.A.AllFns {
+		if fn.Blocks == nil {
+			continue
+		}
+		pk := fnPkgPath(fn)
+		if pk != repoMod+"/store/rootmulti/heightcache" && pk != repoMod+"/store/iavl" && pk != repoMod+"/store/rootmulti" {
+			continue
+		}
+		for _, b := range fn.Blocks {
+			for _, ins := range b.Instrs {
+				call, ok := ins.(*ssa.Call)
+				if !ok {
+					continue
+				}
+				name := calleeName(&call.Call)
+				if !(strings.HasSuffix(name, "heightcache.MemoryCache).Get") || strings.HasSuffix(name, "SingleStoreCache.Get") || strings.HasSuffix(name, "MultiStoreCache.Get")) {
+					continue
+				}
+				n++
+				o.Facts++
+				// the value result and everything it is copied into
+				var walk func(v ssa.Value, d int)
+				walk = func(v ssa.Value, d int) {
+					if d > 5 || v.Referrers() == nil {
+						return
+					}
+					for _, r := range *v.Referrers() {
+						switch x := r.(type) {
+						case *ssa.Extract:
+							if x.Index == 0 {
+								walk(x, d+1)
+							}
+						case *ssa.Phi:
+							walk(x, d+1)
+						case *ssa.Call:
+							if bi, isB := x.Call.Value.(*ssa.Builtin); isB && bi.Name() == "len" {
+								// a length used as a branch condition or returned as a boolean: presence decided by length
+								if lenDecides(x) {
+									o.fail(c.A.Pos(x.Pos()), "%s tests the length of a value read from the cache (%s): a stored empty value would count as absent", FnName(fn), desc(v, 4))
+								}
+							}
+						}
+					}
+				}
+				walk(call, 0)
+			}
+		}
+	}
+	if n == 0 {
+		o.unresolved("no read of the height cache found")
+	}
+	return *o
+}
+
+// lenDecides: the length computed by l is compared (and the comparison branches or is returned).
+func lenDecides(l *ssa.Call) bool {
+	if l.Referrers() == nil {
+		return false
+	}
+	for _, r := range *l.Referrers() {
+		if bo, ok := r.(*ssa.BinOp); ok {
+			switch bo.Op {
+			case token.EQL, token.NEQ, token.LSS, token.GTR, token.LEQ, token.GEQ:
+				return true
+			}
+		}
+	}
+	return false
 }
